@@ -65,7 +65,17 @@ func payloadDoc(r *rand.Rand, body []byte) string {
 	if len(body) == 0 && r.Intn(2) == 0 {
 		return pick(r, []string{`{}`, `{"hexPayload":""}`, `{"hexPayload":"0x"}`})
 	}
-	switch r.Intn(6) {
+	switch r.Intn(8) {
+	case 6:
+		// a payload document that also carries the key names of the job DEFINITION: only hexPayload is payload
+		other := fmt.Sprintf("0x%040x", 0xBBBB0000+r.Intn(1000))
+		return pick(r, []string{
+			`{"hexPayload":"` + h + `","address":"` + other + `"}`,
+			`{"address":"` + other + `","abi":"[]","hexPayload":"` + h + `"}`,
+			`{"hexPayload":"` + h + `","Address":"` + other + `","ABI":"00"}`,
+		})
+	case 7:
+		return `{"hexPayload":"` + h + `","abi":"deadbeef","payload":"00","hexpayload2":"11"}`
 	case 0:
 		return `{"hexPayload":"0x` + h + `"}`
 	case 1:
